@@ -61,7 +61,7 @@ def callers_exact(ck, ctx, rule, callee, allowed, floor=None):
     """WHO: `callee` is called only from `allowed` functions; returns the call sites"""
     F = ctx.F
     ck.need("fn " + callee, F.body(callee) or F.call_sites(callee))
-    sites = F.call_sites(callee)
+    sites = F.view_call_sites(callee)
     fns = sorted({F.owner(b.nname) for b, _, _ in sites})
     extra = sorted(set(fns) - set(allowed))
     ck.ob(rule, callee, not extra, "callers of %s = %s (allowed %s)" % (callee, fns, sorted(allowed)), span=callee)
@@ -107,6 +107,82 @@ def bool_gate_edges(ctx, body, pred):
             neg = not neg
         out.add((bb, fl if neg else tl))
     return out
+
+
+def names_field(e, name):
+    """e denotes field `name` of something: directly, or as a join of such reads (one per State the variable may hold)"""
+    e = strip(e)
+    if e[0] == "phi":
+        return bool(e[1]) and all(names_field(a, name) for a in e[1])
+    return field_chain(e)[1][-1:] == [name]
+
+
+def try_of(ctx, body, call_bb):
+    """(try_bb, continue_label, break_label) of the `?` applied to the result of the call in call_bb: the one whose operand *is* that
+    call (a `?` further out, e.g. the caller's on an inlined helper's result, also mentions it and is only the fallback)"""
+    direct, loose = None, None
+    for tb, (cont, brk, ope) in sorted(try_err_edges(ctx, body).items()):
+        if ope is None:
+            continue
+        s = strip(ope)
+        if s[0] == "call" and s[3] == call_bb:
+            direct = direct or (tb, cont, brk)
+        elif any(c[3] == call_bb for c in calls_in(ope)):
+            loose = loose or (tb, cont, brk)
+    return direct or loose
+
+
+def must_pass(ctx, body, call_bb, through, extra_avoid_edges=()):
+    """after the *successful* `?` of the call in call_bb, neither the enclosing loop's next iteration nor any return is reachable
+    without passing one of the blocks `through` (error exits of later `?` are not counted).  None when the `?` is not found."""
+    cfg = ctx.cfg(body)
+    tries = try_err_edges(ctx, body)
+    tr = try_of(ctx, body, call_bb)
+    if tr is None:
+        return None
+    starts = cfg.edge_targets(tr[0], tr[1])
+    brk = {(tb, v[1]) for tb, v in tries.items()} | set(extra_avoid_edges)
+    r = cfg.reach_avoid(starts, avoid_blocks=list(through), avoid_edges=brk)
+    hdr = cfg.enclosing_loop_header(call_bb)
+    bad = [x for x in cfg.returns() if x in r]
+    if hdr is not None and hdr in r:
+        bad.append(hdr)
+    return not bad
+
+
+def zero_test_edges(ctx, body, is_subject):
+    """(zero_edges, nonzero_edges) of every test of an unsigned quantity against 0, in any of the source forms
+    `if x == 0`, `if x != 0`, `if x > 0`, `if x >= 1`, `if x < 1`, `match x { 0 => .., _ => .. }`: is_subject(expr) selects the quantity."""
+    z, nz = set(), set()
+    for bb, t, e in Q.switches(ctx, body):
+        tl, fl = Q.bool_edges(t)
+        neg = False
+        ee = e
+        while ee[0] == "un" and ee[1] == "Not":
+            ee, neg = ee[2], not neg
+        se = strip(ee)
+        if se[0] == "bin" and tl is not None:
+            op, a, c = se[1], se[2], se[3]
+            form = None
+            if c == ("const", 0) and is_subject(strip(a)):
+                form = {"Eq": "z", "Ne": "nz", "Gt": "nz", "Le": "z"}.get(op)
+            elif c == ("const", 1) and is_subject(strip(a)):
+                form = {"Lt": "z", "Ge": "nz"}.get(op)
+            elif a == ("const", 0) and is_subject(strip(c)):
+                form = {"Eq": "z", "Ne": "nz", "Lt": "nz", "Ge": "z"}.get(op)
+            if form:
+                if neg:
+                    form = "nz" if form == "z" else "z"
+                (z if form == "z" else nz).add((bb, tl))
+                (nz if form == "z" else z).add((bb, fl))
+                continue
+        # integer switch on the quantity itself with an arm for 0
+        if is_subject(strip(e)) and t.get("discr_ty", {}).get("s") != "bool":
+            arms = [v for v, _ in t["arms"]]
+            if arms == [0]:
+                z.add((bb, 0))
+                nz.add((bb, "otherwise"))
+    return z, nz
 
 
 def try_err_edges(ctx, body):
